@@ -96,8 +96,27 @@ MovedAll(r, C) ==
      /\ \A i \in 1..Len(ss) : ss[i].k \in {"run", "runall"} \/ (ss[i].k = "emit" /\ ss[i].t # "E")) =>
      \A p \in DOMAIN r.probes : IsSetup(p) => r.probes[p] = [i \in 1..Len(em) |-> <<"N", em[i]>>] \o <<<<"C", U>>>>
 
+(* C12 / C06 (thread part), rules that hold whatever the known finding F14 allows:                                       *)
+(*  - a subscriber that was there before the threads started receives every item the threads pass to the subject;       *)
+(*  - a subscriber made by a thread receives every item that the SAME thread passes to the subject afterwards           *)
+(*    (its subscribe call had returned before that emission began)                                                      *)
+ItemOf(s) == IF s.k = "bnext" THEN s.v ELSE IF s.k = "emit" /\ s.t = "N" THEN s.v ELSE U
+ThreadName(t, i) == ToString(t) \o "c" \o ToString(i)
+OwnLater(r, C) ==
+  \A t \in 1..Len(C.threads) : \A i \in 1..Len(C.threads[t]) : \A j \in 1..Len(C.threads[t]) :
+     (i < j /\ C.threads[t][i].k = "sub" /\ ItemOf(C.threads[t][j]) # U) =>
+        LET nm == "t" \o ThreadName(t, i) IN
+        nm \in DOMAIN r.probes => SeqContains(ItemsP(r.probes[nm]), ItemOf(C.threads[t][j]))
+SetupGetsAll(r, C) ==
+  LET ss == AllStims(C.threads) IN
+  (\A i \in 1..Len(ss) : ss[i].k \in {"bnext", "sub"} \/ (ss[i].k = "emit" /\ ss[i].t = "N")) =>
+     \A p \in DOMAIN r.probes : IsSetup(p) =>
+        \A i \in 1..Len(ss) : ItemOf(ss[i]) # U => SeqContains(ItemsP(r.probes[p]), ItemOf(ss[i]))
+
 Judge(r) ==
   LET C == Cases[r.c]
+      crash == r.stuck \/ r.fault # ""
+      rootop == Op(C.root)
       chk == C.checks
       isBeh == "C12" \in chk
       f(cond, id) == IF id \in chk /\ cond THEN <<id>> ELSE <<>>
@@ -116,6 +135,14 @@ Judge(r) ==
      \o f(r.late \/ r.stuck \/ r.fault # "", "C19")      \* a cancelled task's body (or what it subscribed) acts after unsubscribe() returned
      \o f(r.cnt[CntFin] # 1, "C15")
      \o f("F14" \notin KF /\ ~BehaviorOK(r.probes), "C12")
+     \o f(rootop = "behavior" /\ ~crash /\ ~(OwnLater(r, C) /\ SetupGetsAll(r, C)), "C12")
+     \o f(rootop = "subject" /\ ~crash /\ ~OwnLater(r, C), "C06")
+     (* a call that panics or never returns has not delivered what it owed: charged to the delivery property of the case *)
+     \o f(crash /\ rootop = "flat", "C05")
+     \o f(crash /\ rootop \in {"share", "publish"}, "C11")
+     \o f(crash /\ rootop = "behavior", "C12")
+     \o f(crash /\ rootop \in {"observe_on", "delay"}, "C07")
+     \o f(r.late /\ rootop \in {"subscribe_on", "delay_subscription"}, "C17")
      \o f(r.stuck, "C14")
 
 VARIABLE i
